@@ -32,7 +32,10 @@ RULE = ('one case = one rectangular geometry (shape, three spacing patterns, shi
 ASSUMPTIONS = [
     'rotation is applied the way the library itself does it: geo.rotate(a, origin); geo.permeability_angle = -a '
     '(otherwise the direction labels of the forward conversion near 45 degrees + k*90 are decided by rounding)',
-    'rectgeo is called with atmos_type equal to the generating type and default atmos_volume / layer_snap',
+    'rectgeo is called with atmos_type equal to the generating type and default atmos_volume / layer_snap; the '
+    'generating geometry\'s atmosphere volume is 1e25 (default), 0 (inactive atmosphere; with remove_inactive the '
+    'atmosphere blocks are moved to the end of the block list, the TOUGH2 convention) or 1e50, and is given to the '
+    'reconstructed geometry before the grid is regenerated (it is not recoverable, like the atmosphere type)',
     'surfaces are layer boundaries, half a top layer above the top layer (MULgraph extends the top block), or leave '
     'a partial top block of at least a quarter of a 0.5 m layer (> layer_snap = 0.1); the bottom layer is complete '
     'and never partial; at least one column reaches the top of the top layer (otherwise the grid does not '
@@ -51,6 +54,8 @@ ASSUMPTIONS = [
     'for ever on direction ties), not a verdict on speed - the unchanged tree needs < 0.05 s (< 2 s)']
 BOUNDS = {
     'quick': {'shapes': '(1,2) (2,1) (2,2) (3,2) (1,3) (3,3) x nz 2..3', 'angles': [0, 30, 135, -45],
+              'atmosphere volume': 'for types 0, 1: {1e25, 0, 1e50, 0 + remove_inactive} crossed with every surface '
+                                   'and angle; x file and shift at angles 0, 30; also a configuration deviation',
               'surface': 'all assignments of {top, one layer down, mid first layer} with >= 1 top and all of {top, half a '
                          'layer above the top layer} for <= 4 columns; flat, all above, stair, slope and every '
                          'single-column deviation (down, mid, above) otherwise',
@@ -59,7 +64,7 @@ BOUNDS = {
               'file 1, angle 30, stair surface)': 'k <= 1', 'big': 'none'},
     'thorough': {'shapes': 'all nx, ny in 1..4 not both 1 x nz 2..4, and 10x12x14',
                  'angles': [0, 30, 45, 90, 135, 180, -45, 200, 1e-06, 180.000001],
-                 'surface': 'as quick',
+                 'surface': 'as quick', 'atmosphere volume': 'as quick',
                  'geometric deviations (spacing pattern 8, shift 1, file 1)': 'k <= 1 plus file x (shift, spacing), at angles '
                                                                              '0 and 30 (other angles: base only)',
                  'configuration deviations': 'k <= 2',
@@ -84,6 +89,7 @@ SP_DEVS = [['i', 'i', 'i'], ['t', 't', 't'], ['i', 'u', 'u'], ['u', 'i', 'u'], [
 BND_KINDS = [[a, v, c] for a in ('top3', 'bot3', 'side1', 'side2') for v in ('zero', 'huge') for c in ('n', 'c')]
 BIG = (10, 12, 14)
 TOP, DOWN, MID, ABOVE = [0, 4], [1, 4], [0, 2], [0, 6]
+AVOL = {'d': 1.e25, 'z': 0.0, 'h': 1.e50}       # atmosphere volume of the generating geometry
 
 
 # ---------------------------------------------------------------------------------------------- the space
@@ -142,7 +148,8 @@ def surface_family(nx, ny, nz):
 
 def base_case(nx, ny, nz, atm):
     return {'nx': nx, 'ny': ny, 'nz': nz, 'sp': ['u', 'u', 'u'], 'shift': 0, 'angle': 0, 'atm': atm,
-            'surf': [TOP] * (nx * ny), 'cs': 0, 'cr': 0, 'bnd': None, 'ob': 'auto', 'rmi': False, 'file': False}
+            'surf': [TOP] * (nx * ny), 'cs': 0, 'cr': 0, 'bnd': None, 'ob': 'auto', 'rmi': False, 'file': False,
+            'avol': 'd'}
 
 
 def with_(case, **kw):
@@ -157,8 +164,10 @@ def normalise(case):
     atmosphere block (both are non-geometric blocks above the top block) - not in the space (None)."""
     if case['bnd'] and case['bnd'][0] == 'top3' and case['atm'] != 2:
         return None
+    if 'avol' not in case or (case['avol'] != 'd' and case['atm'] == 2):
+        case = with_(case, avol='d')            # no atmosphere blocks: the atmosphere volume is not in the grid
     if case['bnd'] and case['bnd'][0] == 'bot3' and case['bnd'][2] == 'c' and case['ob'] == 'auto':
-        return with_(case, ob='name')
+        case = with_(case, ob='name')
     return case
 
 
@@ -214,9 +223,21 @@ def unit_cases(unit, tier):
                 c = emit(c)
                 if c:
                     yield c
+            if atm != 2:
+                # inactive (zero-volume) or huge atmosphere, crossed with every surface and angle
+                for upd in ({'avol': 'z'}, {'avol': 'h'}, {'avol': 'z', 'rmi': True}):
+                    c = emit(with_(g, **upd))
+                    if c:
+                        yield c
+                if ang in DEV_ANGLES[tier]:
+                    for upd in ({'avol': 'z', 'file': True}, {'avol': 'h', 'file': True}, {'avol': 'z', 'shift': 1}):
+                        c = emit(with_(g, **upd))
+                        if c:
+                            yield c
     # B: configuration deviations
     cdevs = [('conv', {'cs': a, 'cr': b}) for a in range(4) for b in range(4) if (a, b) != (0, 0)]
     cdevs += [('bnd', {'bnd': b}) for b in BND_KINDS]
+    cdevs += [('avol', {'avol': 'z'}), ('avol', {'avol': 'h'})]
     cdevs += [('ob', {'ob': 'name'}), ('rmi', {'rmi': True}), ('file', {'file': True}), ('angle', {'angle': 30}),
               ('surf', {'surf': stair(nx, ny, nz)})]
     for ds in combos(cdevs, 2 if tier == 'thorough' else 1):
@@ -237,7 +258,7 @@ def units(tier):
 
 def case_key(c):
     return repr((c['nx'], c['ny'], c['nz'], c['sp'], c['shift'], c['angle'], c['atm'], c['surf'], c['cs'], c['cr'],
-                 c['bnd'], c['ob'], c['rmi'], c['file']))
+                 c['bnd'], c['ob'], c['rmi'], c['file'], c.get('avol', 'd')))
 
 
 # ---------------------------------------------------------------------------------------------- one case
@@ -265,6 +286,8 @@ def build_geometry(case, m):
     import numpy as np
     from mulgrids import mulgrid
     geo = mulgrid().rectangular(m.dx, m.dy, m.dz, convention=case['cs'], atmos_type=case['atm'])
+    if case.get('avol', 'd') != 'd':
+        geo.atmosphere_volume = AVOL[case['avol']]
     for k, col in enumerate(geo.columnlist):
         L, q = case['surf'][k]
         lay = geo.layerlist[L + 1]
@@ -422,6 +445,14 @@ def evaluate(case):
             origin_name = geo.block_name(geo.layerlist[-1].name, geo.columnlist[0].name)
             if case['bnd']:
                 add_boundary(case, geo, grid, m)
+            if case.get('avol', 'd') == 'z' and case['rmi'] and case['atm'] != 2:
+                # TOUGH2 convention for an inactive atmosphere: its blocks go to the end of the block list
+                natm = geo.num_atmosphere_blocks
+                names = [b.name for b in grid.blocklist]
+                try:
+                    grid.reorder(block_names=names[natm:] + names[:natm])
+                except Exception as e:
+                    raise Fail('reorder', 'exception:' + type(e).__name__, 'moving the atmosphere blocks to the end raised %r' % e)
             # rounding the grid suffers before rectgeo sees it
             dxy, dz, rel = 1e-7 * scale, 1e-7 * scale, 1e-7
             if case['file']:
@@ -447,6 +478,8 @@ def evaluate(case):
                 raise Fail('rectgeo', 'exception:' + type(e).__name__, 'rectgeo raised %r' % e)
             check_geometry(geo2, m, case, dxy, dz, rel)
             try:
+                # the atmosphere volume is the caller's knowledge, like the atmosphere type
+                geo2.atmosphere_volume = geo.atmosphere_volume
                 grid2 = t2grid().fromgeo(geo2, bmap)
             except Exception as e:
                 raise Fail('fromgeo(geo2,blockmap)', 'exception:' + type(e).__name__,
@@ -585,6 +618,8 @@ def shape_class(case):
 REVERT = [('file', lambda c, b: with_(c, file=False), lambda c: 'file' if c['file'] else None),
           ('bnd', lambda c, b: with_(c, bnd=None), lambda c: ('bnd=' + '/'.join(c['bnd'])) if c['bnd'] else None),
           ('rmi', lambda c, b: with_(c, rmi=False), lambda c: 'remove_inactive' if c['rmi'] else None),
+          ('avol', lambda c, b: with_(c, avol='d'),
+           lambda c: 'atmosphere-volume=' + {'z': '0', 'h': '1e50'}[c['avol']] if c.get('avol', 'd') != 'd' else None),
           ('ob', lambda c, b: with_(c, ob='auto'), lambda c: 'origin_block-given' if c['ob'] == 'name' else None),
           ('conv', lambda c, b: with_(c, cs=0, cr=0),
            lambda c: 'conv=%d->%d' % (c['cs'], c['cr']) if (c['cs'], c['cr']) != (0, 0) else None),
@@ -662,7 +697,7 @@ def run_unit(unit, tier, rec):
             rec.violation(signature(case, r, memo), r[2], case)
         if n % 997 == 1:
             rec.sample({k: case[k] for k in ('nx', 'ny', 'nz', 'sp', 'shift', 'angle', 'atm', 'surf', 'cs', 'cr', 'bnd',
-                                             'ob', 'rmi', 'file')})
+                                             'ob', 'rmi', 'file', 'avol')})
     rec.count('cases_%s' % unit[0], n)
     rec.count('units', 1)
 
